@@ -92,15 +92,35 @@ def run_chunk(args):
         if name in ("lc", "lca", "laxs", "laxz", "lax0", "sp", "eq", "eqr", "cmp", "copy", "copyn"):
             srcs = [int(toks[2])]
         fs = [fields(g) for g in group]
-        # taint bookkeeping (which registers may have been hit by one of the two known-unsafe combinations)
+
+        def stored(f):
+            st = f.get("st", "-")
+            if not st.startswith("["):
+                return []
+            out = []
+            for ent in st.strip("[]!TREE").split(";"):
+                if ":" in ent:
+                    k, v = ent.split(":", 1)
+                    try:
+                        out.append((int(k), v))
+                    except ValueError:
+                        pass
+            return out
+        # taint bookkeeping: a register is tainted by one of the two known-unsafe combinations only when the
+        # operation at the known site really left the defect behind in the private Sparse_Row of the real
+        # code (a stored zero after the mixed lax0, an entry at or beyond the size after the truncating copy)
         for w in range(4):
             t = state["taint"]
             if name == "new":
                 t.pop((w, r), None)
             elif name == "lax0" and rep_sparse(w, r) and not rep_sparse(w, srcs[0]):
-                t[(w, r)] = "lax0-mixed"
+                if any(v == "0" for _, v in stored(fs[w])):
+                    t[(w, r)] = "lax0-mixed"
             elif name == "copyn" and rep_sparse(w, r) and not rep_sparse(w, srcs[0]) and int(toks[3]) < state["n"].get((w, srcs[0]), 1):
-                t[(w, r)] = "trunc-copy"
+                if any(k >= int(fs[w].get("n", "0")) for k, _ in stored(fs[w])):
+                    t[(w, r)] = "trunc-copy"
+                else:
+                    t.pop((w, r), None)
             elif name in ("copy", "copyn"):
                 if (w, srcs[0]) in t:
                     t[(w, r)] = t[(w, srcs[0])]
